@@ -120,16 +120,18 @@ def check_cacg(R, monitor, cacg, opts, where):
             R.check(monitor, bool(np.all(mn > 0)), 'domain/cacg/not-positive', f'{where}: eigenvalue <= 0', prop='C09')
     elif norm == 'trace':
         tr = lam.sum(axis=-1)
-        nfloored = (lam <= mx[..., None] * floor * (1 + 1e-12)).sum(axis=-1)
-        # unit trace up to flooring: flooring can only add at most D*floor*max
         ttol = 1e-9 if lam.dtype == np.float64 else 1e-5
         ok = (tr >= 1 - ttol) & (tr <= 1 + D * floor * mx + ttol)
-        zero = mx == 0
-        R.check(monitor, bool(np.all(ok | zero)), 'domain/cacg/trace-not-one', f'{where}: trace of eigenvalues {tr.min():.6g}..{tr.max():.6g}', prop='C09')
-        R.check(monitor, bool(np.all((mn >= floor * mx * (1 - 1e-12)) | zero)), 'domain/cacg/below-floor', f'{where}: eigenvalue below floor*max', prop='C09')
+        degenerate = mx <= floor * (1 + 1e-12)          # zero scatter: every eigenvalue at the absolute floor
+        if degenerate.any():
+            R.count('C09:cacg zero-scatter class (all eigenvalues floored)', int(degenerate.sum()))
+        R.check(monitor, bool(np.all(ok | degenerate)), 'domain/cacg/trace-not-one', f'{where}: trace of eigenvalues {tr.min():.6g}..{tr.max():.6g}', prop='C09')
+        R.check(monitor, bool(np.all(mn >= floor * mx * (1 - 1e-12))), 'domain/cacg/below-floor', f'{where}: eigenvalue below floor*max', prop='C09')
     else:
-        zero = mx == 0
-        R.check(monitor, bool(np.all((mn >= floor * mx * (1 - 1e-12)) | zero)), 'domain/cacg/below-floor', f'{where}: eigenvalue below floor*max', prop='C09')
+        R.check(monitor, bool(np.all(mn >= floor * mx * (1 - 1e-12))), 'domain/cacg/below-floor', f'{where}: eigenvalue below floor*max', prop='C09')
+    if floor > 0:
+        R.check(monitor, bool(np.all(mn > 0)), 'domain/cacg/not-positive', f'{where}: covariance not positive definite (eigenvalue {mn.min():.3e})', prop='C09')
+    return
     if floor > 0:
         if (mn <= 0).any() and not ((mx == 0).any()):
             R.fail(monitor, 'domain/cacg/not-positive', f'{where}: covariance not positive definite', prop='C09')
